@@ -347,8 +347,10 @@ def check_builders(ctx, mods, builders):
     byname = {b["name"]: b for b in builders}
     n = 0
 
-    def build(bname, kwargs_fn, field_checks):
+    def build(bname, kwargs_fn, field_checks, force=None):
         nonlocal n
+        if ctx.violations:
+            return
         bld = byname.get(bname)
         if bld is None:
             ctx.broken.append({"kind": "builder-missing", "name": bname})
@@ -356,6 +358,9 @@ def check_builders(ctx, mods, builders):
         rules = BUILDER_RULES[bname]
         for flags in itertools.product([False, True], repeat=len(rules)):
             on = {r[0]: f for r, f in zip(rules, flags)}
+            if force:
+                if any(on[k] != v for k, v in force.items()):
+                    continue
             for sc in bld["cls"]._CLASSES:
                 v = sc.API_VERSION
                 must_reject = any(on[p] and v < minv for p, minv in rules)
@@ -396,6 +401,19 @@ def check_builders(ctx, mods, builders):
                           topics=[("t", [(0, 1234 if on["timestamp"] else -1)])]),
           {"isolation_level": lambda st: st.isolation_level == 1,
            "timestamp": lambda st: st.topics[0][1][0][1] == 1234})
+    # a timestamp search is requested as soon as ANY partition of ANY topic carries a real timestamp
+    for a, b, c, d in itertools.product([-1, -2, 0, 1234], repeat=4):
+        for shape in (0, 1):
+            topics = [("t", [(0, a), (1, b)]), ("u", [(0, c), (3, d)])] if shape == 0 else [("t", [(0, a)]), ("u", [(0, b), (1, c), (2, d)])]
+            want_ts = any(x >= 0 for x in (a, b, c, d))
+            build("OffsetRequest",
+                  lambda on, topics=topics: dict(replica_id=-1, isolation_level=1 if on["isolation_level"] else 0, topics=topics),
+                  {"isolation_level": lambda st: st.isolation_level == 1},
+                  force={"timestamp": want_ts})
+    for parts in ([("t", [0]), ("u", [1, 2])], [], [("t", [])]):
+        build("OffsetFetchRequest",
+              lambda on, parts=parts: dict(consumer_group="g", partitions=None if on["all_partitions"] else parts),
+              {"all_partitions": lambda st: st.topics is None})
     build("FindCoordinatorRequest",
           lambda on: dict(coordinator_key="k", coordinator_type=1 if on["coordinator_type"] else 0),
           {"coordinator_type": lambda st: st.coordinator_type == 1})
